@@ -518,6 +518,17 @@ func (rw *rewriter) walkList(list []ast.Stmt) {
 	for _, st := range list {
 		var acc []access
 		rw.scan(st, &acc, true)
+		if own := headerNames(st); len(own) > 0 && len(acc) > 0 {
+			// a probe sits in FRONT of its statement: a name the statement's own header declares
+			// (`for s := e; s != nil; s = s.parent`) does not exist there yet
+			kept := acc[:0]
+			for _, a := range acc {
+				if !own[a.x] {
+					kept = append(kept, a)
+				}
+			}
+			acc = kept
+		}
 		if len(acc) == 0 {
 			continue
 		}
@@ -540,6 +551,47 @@ func (rw *rewriter) walkList(list []ast.Stmt) {
 		rw.edits = append(rw.edits, edit{o, o, b.String()})
 		rw.usesSim = true
 	}
+}
+
+// headerNames: the identifiers declared by the header of a for / if / switch / range statement.
+func headerNames(st ast.Stmt) map[string]bool {
+	own := map[string]bool{}
+	add := func(s ast.Stmt) {
+		if as, ok := s.(*ast.AssignStmt); ok && as.Tok == token.DEFINE {
+			for _, l := range as.Lhs {
+				if id, ok := l.(*ast.Ident); ok {
+					own[id.Name] = true
+				}
+			}
+		}
+	}
+	switch x := st.(type) {
+	case *ast.ForStmt:
+		add(x.Init)
+	case *ast.IfStmt:
+		// the whole else-if chain is scanned as one statement
+		for cur := x; cur != nil; {
+			add(cur.Init)
+			next, _ := cur.Else.(*ast.IfStmt)
+			cur = next
+		}
+	case *ast.SwitchStmt:
+		add(x.Init)
+	case *ast.TypeSwitchStmt:
+		add(x.Init)
+		add(x.Assign)
+	case *ast.RangeStmt:
+		if x.Tok == token.DEFINE {
+			for _, e := range []ast.Expr{x.Key, x.Value} {
+				if id, ok := e.(*ast.Ident); ok {
+					own[id.Name] = true
+				}
+			}
+		}
+	case *ast.LabeledStmt:
+		return headerNames(x.Stmt)
+	}
+	return own
 }
 
 // tableSel reports whether e is X.values / X.types and returns X's text.
